@@ -1001,7 +1001,7 @@ def run_one(item) -> dict:
                 rec["what"] = o.exc[:120]
             elif o.stage == "render":
                 rec["status"] = "crash"
-                rec["key"] = f"render-crash:{o.exc.split(':')[1].strip() if ':' in o.exc else etype}:{op.split(':')[0]}:{repo_frame(o.tb)}"
+                rec["key"] = f"render-crash:{o.exc.split(':')[1].strip() if ':' in o.exc else etype}:{repo_frame(o.tb)}"
                 rec["what"] = o.exc[:200]
             else:
                 rec["status"] = "crash"
@@ -1009,11 +1009,11 @@ def run_one(item) -> dict:
                 if etype == "RecursionError":
                     _arm(0)
                     site = recursion_site(src, entry, exp)
-                rec["key"] = f"crash:{etype}:{op.split(':')[0]}:{site}"
+                rec["key"] = f"crash:{etype}:{site}"
                 rec["what"] = f"[{o.stage}] {o.exc[:200]}"
     except _Hang:
         rec["status"] = "hang"
-        rec["key"] = f"hang:{op.split(':')[0]}"
+        rec["key"] = "hang"
         rec["what"] = f"no result within {HANG_S}s of CPU time"
     except Exception as e:  # noqa: BLE001   harness bug
         rec["status"] = "harness"
@@ -1036,7 +1036,7 @@ def plan(tier):
     positions + expression replacement; 'site' = site operators only; 'pairs' = all
     pairs of (site + insertion-at-start) mutations."""
     from vlib import gen01
-    bases = gen01.bases(tier)
+    bases = gen01.bases(tier, max_stmts=0 if tier == "quick" else 1)
     # "context" bases get the insertion operators: per family the simplest base containing
     # a compound statement (else the simplest base); for the `feat` family the simplest
     # base of every placement context.
@@ -1055,7 +1055,10 @@ def plan(tier):
     for bi, p in enumerate(bases):
         if split_module(p.src) is None:
             continue
-        tasks.append((bi, "all" if bi in full else "site"))
+        mode = "all" if bi in full else "site"
+        if tier == "quick" and mode == "all" and p.family not in ("feat", "cf", "lin", "struct", "arr", "gen"):
+            mode = "site"       # quick: insertion operators on a smaller, complete set of context bases
+        tasks.append((bi, mode))
     if tier == "thorough":
         small = sorted(range(len(bases)), key=lambda i: (len(bases[i].src), i))
         fam_seen, chosen = set(), []
@@ -1068,6 +1071,8 @@ def plan(tier):
             firsts = list(mutants_of(main_src, "first"))
             for k in range(len(firsts)):
                 tasks.append((bi, f"pairs:{k}"))
+    # heaviest tasks first, so that the pool does not end on a long straggler
+    tasks.sort(key=lambda t: 0 if t[1] == "all" else 1)
     return bases, tasks
 
 
